@@ -2,7 +2,7 @@
    The structural half is in Properties.v.  Model: C08/ProofsSchedule.v (the loader's run as a fold
    of [step] over a linearisation of Prepare/Merge events; rpos/wpos = positions a fetch reads
    when it is prepared / may write when it is merged; resp/errs = pointwise subgraph oracle). *)
-From Gv Require Import C08.Model C08.Spec C08.ProofsSpec C08.ProofsSchedule C09.ProofsCommute C09.ProofsSchedule.
+From Gv Require Import C08.Model C08.Spec C08.ProofsSpec C08.ProofsSchedule C08.ProofsFlags C09.ProofsCommute C09.ProofsSchedule.
 From Coq Require Import List Arith Bool Permutation.
 Import ListNotations.
 
@@ -96,3 +96,74 @@ Proof.
   repeat split; try assumption; [apply run_lr_lin | apply run_rl_lin].
 Qed.
 Print Assumptions c08_writes_compatible_needed.
+
+(* ---- loader-wide flags written in the merge phase, in completion order (C08/ProofsFlags.v) ----
+
+   (5, flags) loader.go keeps cross-fetch state next to the data: skipValueCompletion (raised in
+   the no-data branch of mergeResult), erroredFetchIDs (recordErroredFetchIDLocked), taintedObjs.
+   With the state extended by these flags ([xstate] = state * flags; a merge JOINS the
+   contribution [flagc f rq] of the response into them: boolean or / set insertion), any two
+   executions of a tree still end in the same extended state -- same data, requests and errors AND
+   the same skipvc, errored set and tainted set -- under the same hypotheses as
+   c08_completion_order_irrelevant, for every contribution oracle and every initial flags. *)
+Theorem c08_completion_order_irrelevant_flags :
+  forall (rpos wpos : nat -> list nat) (resp : nat -> request -> list (nat * nat))
+         (errs : nat -> request -> list nat) (shared : list nat) (canon : nat -> nat)
+         (flagc : nat -> request -> contrib) (t : tree),
+  NoDup (tree_ids t) -> tree_respects t ->
+  deps_cover_reads_b rpos wpos (tree_fetches t) = true ->
+  writes_compatible_b wpos shared (tree_fetches t) = true ->
+  shared_agree resp shared canon ->
+  forall s1 s2, lin t s1 -> lin t s2 -> forall x : xstate,
+    xrun rpos wpos resp errs flagc x s1 = xrun rpos wpos resp errs flagc x s2.
+Proof. exact completion_order_irrelevant_flags_proof. Qed.
+Print Assumptions c08_completion_order_irrelevant_flags.
+
+(* the flags ride along: the data/requests/errors of the extended run are those of loader_run
+   (in this model no flag feeds back into a merge) *)
+Theorem c08_flags_do_not_influence_state :
+  forall rpos wpos resp errs flagc s (x : xstate),
+    fst (xrun rpos wpos resp errs flagc x s) = loader_run rpos wpos resp errs (fst x) s.
+Proof. exact xrun_fst. Qed.
+Print Assumptions c08_flags_do_not_influence_state.
+
+(* what makes it true: the update loader.go applies in mergeResult
+   ([if cond { l.skipValueCompletion = true }], [l.erroredFetchIDs[id] = struct{}{}],
+   [l.taintedObjs.add(obj)]) only ever raises/adds (sticky), two updates can be swapped, and
+   repeating one changes nothing *)
+Theorem c08_flag_updates_monotone :
+  (forall x a, skipvc x = true -> skipvc (join x a) = true) /\
+  (forall x a i, In i (errored x) -> In i (errored (join x a))) /\
+  (forall x a i, In i (tainted x) -> In i (tainted (join x a))) /\
+  (forall x a b, join (join x a) b = join (join x b) a) /\
+  (forall x a, join (join x a) a = join x a).
+Proof. exact flag_updates_monotone. Qed.
+Print Assumptions c08_flag_updates_monotone.
+
+(* along ANY event sequence (no plan hypothesis at all): once skipValueCompletion is raised it
+   stays raised, once a fetch id is in erroredFetchIDs / an object in taintedObjs it stays there *)
+Theorem c08_flags_monotone_along_runs :
+  forall rpos wpos resp errs flagc s (x : xstate),
+    (skipvc (snd x) = true -> skipvc (snd (xrun rpos wpos resp errs flagc x s)) = true) /\
+    (forall i, In i (errored (snd x)) -> In i (errored (snd (xrun rpos wpos resp errs flagc x s)))) /\
+    (forall i, In i (tainted (snd x)) -> In i (tainted (snd (xrun rpos wpos resp errs flagc x s)))).
+Proof. exact flags_monotone_run. Qed.
+Print Assumptions c08_flags_monotone_along_runs.
+
+(* seeded/C08-m6: with [l.skipValueCompletion = hasErrors && flag] (assignment, last writer wins;
+   xstep_assign / xrun_assign) the statement is FALSE: one Parallel node with two independent
+   fetches, one coming back with errors and no data, one with neither; every hypothesis of
+   c08_completion_order_irrelevant_flags holds, data/requests/errors agree, and the two executions
+   end with different skipValueCompletion (extensions.valueCompletion present or absent) *)
+Theorem c08_skipvc_assignment_refuted :
+  exists rpos wpos resp errs flagc t (x : xstate) s1 s2,
+    NoDup (tree_ids t) /\ tree_respects t /\
+    deps_cover_reads_b rpos wpos (tree_fetches t) = true /\
+    writes_compatible_b wpos [] (tree_fetches t) = true /\
+    shared_agree resp [] (fun _ => 0) /\
+    lin t s1 /\ lin t s2 /\
+    fst (xrun_assign rpos wpos resp errs flagc x s1) = fst (xrun_assign rpos wpos resp errs flagc x s2) /\
+    skipvc (snd (xrun_assign rpos wpos resp errs flagc x s1)) <>
+    skipvc (snd (xrun_assign rpos wpos resp errs flagc x s2)).
+Proof. exact skipvc_assignment_refuted. Qed.
+Print Assumptions c08_skipvc_assignment_refuted.
